@@ -81,6 +81,7 @@ class Engine:
         self.overrides = {}          # qualname -> f(engine, recv, args, kwargs)
         self.loop_specs = {}         # (qualname, 'While'|'For', ordinal) -> LoopSpec
         self.merge_ifs = False
+        self.fmt_model = None        # hook: structured model of str.format (diagram labels); default: opaque "<fmt>"
         self.opaque_slice = None     # hook: slice of a value of uninterpreted sort (vectors in _solve)
         self.feas_timeout_ms, self.max_paths = feas_timeout_ms, max_paths
         # wall-clock budget of one explore() call: a unit whose path space explodes on some code shape becomes undecided, not a hang
@@ -400,6 +401,12 @@ class Engine:
         return self.binop(x.op, self.ev(x.left), self.ev(x.right), x)
 
     def binop(self, op, a, b, node=None):
+        if isinstance(a, NVec) or isinstance(b, NVec):
+            n = len(a.items) if isinstance(a, NVec) else len(b.items)
+            xs = a.items if isinstance(a, NVec) else [a] * n
+            ys = b.items if isinstance(b, NVec) else [b] * n
+            if len(xs) != len(ys): raise PyRaise("ValueError", "operands could not be broadcast together", node, implicit=True)
+            return NVec([self.binop(op, x_, y_, node) for x_, y_ in zip(xs, ys)])
         if isinstance(a, CondStr) or isinstance(b, CondStr):
             if isinstance(op, ast.Add):
                 return CondStr.of(a).plus(b)
@@ -703,7 +710,10 @@ class Engine:
             if attr == "append": return Builtin("AccList.append", lambda e, v: base.append(v))
             raise Unsupported("AccList." + attr)
         if isinstance(base, str):
-            if attr == "format": return Builtin("str.format", lambda e, *a, **k: "<fmt>")
+            if attr == "format":
+                if self.fmt_model is not None:
+                    return Builtin("str.format", lambda e, *a, _t=base, **k: e.fmt_model(e, _t, a, k))
+                return Builtin("str.format", lambda e, *a, **k: "<fmt>")
             if attr in ("strip", "split", "join", "upper", "lower", "startswith", "endswith"):
                 f = getattr(base, attr)
                 if attr == "join":
@@ -1394,6 +1404,15 @@ class Engine:
             if isinstance(x, Opaque) and x.tag == "maybe_nan": return SV(x.attrs["is_nan"], "bool")
             return x != x
         def isclose(e, a, b, rtol=1e-05, atol=1e-08, **k):
+            if isinstance(a, (list, tuple, NVec)) or isinstance(b, (list, tuple, NVec)):
+                # element-wise form with scalar broadcasting: a vector of booleans offering .any() / .all()
+                xs = a.items if isinstance(a, NVec) else (list(a) if isinstance(a, (list, tuple)) else None)
+                ys = b.items if isinstance(b, NVec) else (list(b) if isinstance(b, (list, tuple)) else None)
+                n = len(xs if xs is not None else ys)
+                xs = xs if xs is not None else [a] * n; ys = ys if ys is not None else [b] * n
+                if len(xs) != len(ys): raise Unsupported("np.isclose of vectors of different length")
+                bs = [to_z(isclose(e, x_, y_, rtol=rtol, atol=atol), "bool") for x_, y_ in zip(xs, ys)]
+                return Opaque("np.boolvec", attrs={"items": bs}, methods={"any": lambda e_: SV(z3.Or(*bs), "bool"), "all": lambda e_: SV(z3.And(*bs), "bool")})
             za, zb = to_z(a, "real"), to_z(b, "real")
             d = za - zb
             return SV(z3.If(d >= 0, d, -d) <= to_z(atol, "real") + to_z(rtol, "real") * z3.If(zb >= 0, zb, -zb), "bool")
@@ -1509,6 +1528,8 @@ def _b_float(e, x=0.0):
 
 
 def _b_int(e, x=0):
+    if isinstance(x, Opaque) and "__int__" in x.methods:
+        return x.methods["__int__"](e)
     if is_sym(x):
         if x.sort == "int": return x
         return e.fresh("int_of", "int")      # havoc (truncation not modelled; not used by any obligation)
